@@ -1,6 +1,8 @@
 package main
 
 import (
+	"math/bits"
+	"crypto/ecdh"
 	"crypto/ed25519"
 	"crypto/sha256"
 	"crypto/sha512"
@@ -1268,4 +1270,104 @@ func init() {
 	reg("math/rand.Intn", func(m *Machine, fr *frame, a []Value) Value { return pick(m, fr, a[0]) })
 	reg("math/rand.Int31n", func(m *Machine, fr *frame, a []Value) Value { return pick(m, fr, a[0]) })
 	reg("math/rand.Int63n", func(m *Machine, fr *frame, a []Value) Value { return pick(m, fr, a[0]) })
+}
+
+func init() {
+	// X25519 is computed by the Go standard library (crypto/ecdh) on concrete inputs.
+	ptrTo := func(b []byte) Value {
+		var v Value = Array(bytesOf(b))
+		return &v
+	}
+	reg("golang.org/x/crypto/nacl/box.GenerateKey", func(m *Machine, fr *frame, a []Value) Value {
+		m.keySeq++
+		seed := sha256.Sum256([]byte(fmt.Sprintf("symgo-x25519-%d", m.keySeq)))
+		priv, err := ecdh.X25519().NewPrivateKey(seed[:])
+		if err != nil {
+			panic(err)
+		}
+		return Tuple{ptrTo(priv.PublicKey().Bytes()), ptrTo(seed[:]), Iface{}}
+	})
+	reg("golang.org/x/crypto/curve25519.X25519", func(m *Machine, fr *frame, a []Value) Value {
+		sc, ok1 := concBytes(a[0])
+		pt, ok2 := concBytes(a[1])
+		if !ok1 || !ok2 {
+			panic(pathEnd{kind: "unsupported", msg: "X25519 of symbolic bytes"})
+		}
+		if len(sc) != 32 || len(pt) != 32 {
+			return Tuple{Slice(nil), m.mkError("bad scalar or point length")}
+		}
+		priv, err := ecdh.X25519().NewPrivateKey(sc)
+		if err != nil {
+			return Tuple{Slice(nil), m.mkError(err.Error())}
+		}
+		pub, err := ecdh.X25519().NewPublicKey(pt)
+		if err != nil {
+			return Tuple{Slice(nil), m.mkError(err.Error())}
+		}
+		out, err := priv.ECDH(pub)
+		if err != nil {
+			return Tuple{Slice(nil), m.mkError("bad input point: low order point")}
+		}
+		return Tuple{bytesOf(out), Iface{}}
+	})
+}
+
+// keccak-f[1600], last nr rounds (the permutation of StrobeGo, whose amd64 version is assembly)
+var keccakRC = [24]uint64{
+	0x0000000000000001, 0x0000000000008082, 0x800000000000808A, 0x8000000080008000, 0x000000000000808B, 0x0000000080000001,
+	0x8000000080008081, 0x8000000000008009, 0x000000000000008A, 0x0000000000000088, 0x0000000080008009, 0x000000008000000A,
+	0x000000008000808B, 0x800000000000008B, 0x8000000000008089, 0x8000000000008003, 0x8000000000008002, 0x8000000000000080,
+	0x000000000000800A, 0x800000008000000A, 0x8000000080008081, 0x8000000000008080, 0x0000000080000001, 0x8000000080008008,
+}
+
+func keccakF(a *[25]uint64, nr int) {
+	rotc := [24]uint{1, 3, 6, 10, 15, 21, 28, 36, 45, 55, 2, 14, 27, 41, 56, 8, 25, 43, 62, 18, 39, 61, 20, 44}
+	piln := [24]int{10, 7, 11, 17, 18, 3, 5, 16, 8, 21, 24, 4, 15, 23, 19, 13, 12, 2, 20, 14, 22, 9, 6, 1}
+	for round := 24 - nr; round < 24; round++ {
+		var bc [5]uint64
+		for i := 0; i < 5; i++ {
+			bc[i] = a[i] ^ a[i+5] ^ a[i+10] ^ a[i+15] ^ a[i+20]
+		}
+		for i := 0; i < 5; i++ {
+			t := bc[(i+4)%5] ^ bits.RotateLeft64(bc[(i+1)%5], 1)
+			for j := 0; j < 25; j += 5 {
+				a[j+i] ^= t
+			}
+		}
+		t := a[1]
+		for i := 0; i < 24; i++ {
+			j := piln[i]
+			b := a[j]
+			a[j] = bits.RotateLeft64(t, int(rotc[i]))
+			t = b
+		}
+		for j := 0; j < 25; j += 5 {
+			for i := 0; i < 5; i++ {
+				bc[i] = a[j+i]
+			}
+			for i := 0; i < 5; i++ {
+				a[j+i] ^= (^bc[(i+1)%5]) & bc[(i+2)%5]
+			}
+		}
+		a[0] ^= keccakRC[round]
+	}
+}
+
+func init() {
+	reg("github.com/mimoo/StrobeGo/strobe.keccakF1600", func(m *Machine, fr *frame, a []Value) Value {
+		arr := (*a[0].(*Value)).(Array)
+		var st [25]uint64
+		for i := range st {
+			c, ok := arr[i].(int64)
+			if !ok {
+				panic(pathEnd{kind: "unsupported", msg: "keccak of symbolic state"})
+			}
+			st[i] = uint64(c)
+		}
+		keccakF(&st, int(m.concInt(fr, a[1], "rounds")))
+		for i := range st {
+			arr[i] = int64(st[i])
+		}
+		return nil
+	})
 }
